@@ -42,7 +42,11 @@ class Contract:
         self.asserts = kw.pop("asserts", {})         # ordinal -> 'usage' | 'internal'
         self.ghost_entry = _lst(kw.pop("ghost_entry", []))   # ghost statements run at entry
         self.ghost_exit = _lst(kw.pop("ghost_exit", []))     # ghost statements run at normal exit
+        self.ghost_any_exit = _lst(kw.pop("ghost_any_exit", []))   # ghost statements run at every exit (before the checks)
+        self.ghost_suspend = _lst(kw.pop("ghost_suspend", []))     # ... right before each own suspension
+        self.ghost_resume = _lst(kw.pop("ghost_resume", []))       # ... right after each resumption
         self.pure = kw.pop("pure", False)
+        self.allocates = kw.pop("allocates", None)    # None: decided by the verifier (does any normal path allocate?)
         self.havoc_all = kw.pop("havoc_all", False)    # runs foreign code synchronously (coroutine.close): everything may change, no time passes
         self.inline = kw.pop("inline", False)        # verify here, but callers inline the body
         self.no_invariants = kw.pop("no_invariants", False)
@@ -53,6 +57,8 @@ class Contract:
         self.max_paths = kw.pop("max_paths", 4000)
         self.note = kw.pop("note", "")
         self.assume_entry = _lst(kw.pop("assume_entry", []))   # extra entry assumptions (listed in evidence)
+        self.assume_on_close = _lst(kw.pop("assume_on_close", []))   # protocol facts that hold whenever GeneratorExit arrives
+        self.assume_all = _lst(kw.pop("assume_all", []))       # invariants ('Class.name') assumed for *all* objects at entry
         self.self_cls = kw.pop("self_cls", None)
         self.step = kw.pop("step", None)             # async generator: per-step contract
         self.step_ensures = _lst(kw.pop("step_ensures", []))     # at every `yield v` (result = v, old() = function entry,
@@ -106,9 +112,20 @@ def model(name, fields=None, ghost=None, final=(), value=False, module=None, ele
     REG.models[name] = Model(name, fields or {}, ghost or {}, final, value, module, elem_hooks or {}, ghost_defaults)
 
 
+_DEFAULT_SCOPE = [None]
+
+
+def default_scope(scope):
+    """invariants the contracts that follow rely on and re-establish (their component); invariants of other components
+    are preserved by the frame rule F (DESIGN 3.6): a component only touches interrupts subscribed to its own notifications"""
+    _DEFAULT_SCOPE[0] = list(scope) if scope is not None else None
+
+
 def contract(fqn, **kw):
     if fqn in REG.contracts:
         raise SpecError("duplicate contract " + fqn)
+    if "inv_scope" not in kw and _DEFAULT_SCOPE[0] is not None and not kw.get("no_invariants"):
+        kw["inv_scope"] = list(_DEFAULT_SCOPE[0])
     REG.contracts[fqn] = Contract(fqn, **kw)
 
 
